@@ -365,6 +365,18 @@ def amdpLine : P String := do
       xclose (if sparse then amdpRSparse evs S1 s a else amdpRDense guarded evs S1 s a) (get2 R s a)))) s!"{comp} rewards"
   return v.render
 
+/-- `amdp0 kind via | err bucketsAfter S1` : AMDP asked for zero entropy buckets -/
+def amdp0Line : P String := do
+  let kind ← P.tok; let via ← P.tok; P.bar
+  let err ← P.tok; let after ← P.nat; let _S1 ← P.nat; P.eof
+  let comp := if via == "ctor" then "AMDP::AMDP" else "AMDP::setEntropyBuckets"
+  let v : Verdict := { tag := "amdp0_" ++ kind ++ "_" ++ via }
+  -- a model over S·0 = 0 states is no MDP: the only acceptable outcome is a rejection that leaves the object unchanged
+  let v := v.failIf (err == "none") s!"{comp} accepts_zero_entropy_buckets"
+  let v := v.failIf (err != "none" && err != "invalid_argument") s!"{comp} wrong_exception_class {err}"
+  let v := v.failIf (err != "none" && via != "ctor" && after != 3) s!"{comp} failed_call_changed_object"
+  return v.render
+
 def tagP : P (List Nat) := P.nats
 
 def graphP (S A : List Nat) : P Graph := do
@@ -513,6 +525,7 @@ def handle (toks : List String) : String :=
     | "isprob" :: rest => P.run isprobLine rest
     | "disc" :: rest => P.run discLine rest
     | "amdp" :: rest => P.run amdpLine rest
+    | "amdp0" :: rest => P.run amdp0Line rest
     | "lm" :: rest => P.run lmLine rest
     | "push" :: rest => P.run pushLine rest
     | "coop" :: rest => P.run coopLine rest
